@@ -52,6 +52,10 @@ type c15Cycle struct {
 	// fail at once or wait for the port). Whatever it does, it has learnt nothing, so it must not cost the templates
 	// acknowledged in earlier cycles
 	BusyStart bool `json:"busy_start,omitempty"`
+	// Bulk > 0: before this cycle's own templates one further exporter (127.0.0.253, an address no key uses) announces this many templates of
+	// 14 fields each (a busy collector: the cache file written at the end of the cycle is well above a megabyte);
+	// whatever the population, the templates acknowledged in this and earlier cycles must survive the restart
+	Bulk int `json:"bulk,omitempty"`
 }
 
 type c15Case struct {
@@ -70,7 +74,7 @@ type c15Case struct {
 }
 
 const c15Rule = "case = 1..3 stop/start cycles of the real collector binary (each instance with all CPUs or its affinity restricted to 1, 2, 4 or 8; 2..8 workers per protocol; in about 3 of 4 cases a generated subset of the four protocols is switched off by configuration, at least one of IPFIX / NetFlow v9 stays on; rawSocket sink and restful stats owned by the harness, per-instance pid and cache files (in a quarter of the cases given as relative names with a working directory other than the configuration's), in a quarter of the cases on a file system other than the temporary directory's) with 1..8 exporters on 127.0.0.x and ::1: " +
-	"per cycle new IPFIX / NetFlow v9 templates are announced (or all known ones redefined with a shorter definition, so that the next cache file is shorter than the one it replaces; or, in a quarter of the later cycles, a quiet life: nothing new, one known template re-announced with a single specifier changed — a scope field if it has any) and acknowledged (a data message using them reached the sink), sFlow/NetFlow v5 noise, a data burst, then SIGTERM or SIGINT after a drawn delay (in 5 of 8 cycles sent once, otherwise repeated 1..1100 ms later), " +
+	"per cycle new IPFIX / NetFlow v9 templates are announced (or all known ones redefined with a shorter definition, so that the next cache file is shorter than the one it replaces; or, in a quarter of the later cycles, a quiet life: nothing new, one known template re-announced with a single specifier changed — a scope field if it has any) and acknowledged (a data message using them reached the sink), sFlow/NetFlow v5 noise, in 1 cycle of 7 a further exporter announcing 1500 or 3000 templates first (a cache file well above a megabyte), a data burst, then SIGTERM or SIGINT after a drawn delay (in 5 of 8 cycles sent once, otherwise repeated 1..1100 ms later), " +
 	"optionally with traffic (data and announcements of fresh template ids) continuing through the shutdown window, or with single late datagrams 0.9..2.1 s after the signal following a quiet period; in a quarter of the later cycles an instance is first started while one of its UDP ports is held by another process (and signalled 1.2 s later if still there); a final verification restart follows the last cycle; " +
 	"oracle per cycle = exit status 0 within 6 s of the signal, stderr free of panic / fatal error / concurrent map, both cache files exist, load and decode data for every acknowledged (exporter,id) to the reference decode, " +
 	"and after the restart data sent WITHOUT templates for every acknowledged (exporter,id) is published with the reference payload; " +
@@ -169,6 +173,7 @@ func genC15(t *rapid.T) c15Case {
 		cy.CPUs = rapid.SampledFrom([]int{0, 0, 0, 0, 1, 2, 4, 8}).Draw(t, "cpus")
 		cy.RepeatMS = rapid.SampledFrom([]int{0, 0, 0, 1, 50, 300, 900, 1100}).Draw(t, "repeatms")
 		cy.BusyStart = i > 0 && rapid.IntRange(0, 3).Draw(t, "busystart") == 0
+		cy.Bulk = rapid.SampledFrom([]int{0, 0, 0, 0, 0, 0, 0, 0, 0, 0, 0, 0, 0, 1500, 3000}).Draw(t, "bulk")
 		cy.Burst = rapid.SampledFrom([]int{0, 5, 50, 300}).Draw(t, "burst")
 		cy.Signal = rapid.SampledFrom([]string{"TERM", "TERM", "INT"}).Draw(t, "signal")
 		cy.DelayMS = rapid.SampledFrom([]int{0, 0, 1, 10, 100}).Draw(t, "delay")
@@ -376,6 +381,38 @@ func runC15(c *c15Case) (v verdict, sig string, err error) {
 			break
 		}
 		cy := c.Cycles[ci]
+		if cy.Bulk > 0 {
+			if cy.Bulk > 20000 {
+				return fail("", "bad case: bulk")
+			}
+			bproto := "ipfix"
+			if disabled["ipfix"] {
+				bproto = "nf9"
+			}
+			bex, e := openExporter(253)
+			if e != nil {
+				return fail("", "harness: cannot bind the bulk exporter: %v", e)
+			}
+			elems := []uint16{8, 12, 15, 10, 14, 16, 17, 21, 22, 1, 2, 7, 11, 4}
+			for id := 0; id < cy.Bulk; {
+				m := wire.Msg{Proto: bproto, Seq: uint32(600000 + id), Time: 1700000000, Domain: 99, Sets: []wire.Set{{Kind: "tpl"}}}
+				for k := 0; k < 10 && id < cy.Bulk; k, id = k+1, id+1 {
+					tp := wire.Template{ID: uint16(1000 + id)}
+					for f := range elems {
+						// every template a little different (the order of its fields rotates with the id)
+						tp.Fields = append(tp.Fields, wire.Field{ID: elems[(f+id)%len(elems)], Len: 4, Type: wire.TUint32})
+					}
+					m.Sets[0].Tpls = append(m.Sets[0].Tpls, tp)
+				}
+				m.Count = uint16(len(m.Sets[0].Tpls))
+				bex.send(proc.port(bproto), m.Bytes())
+				if id%100 == 0 {
+					time.Sleep(time.Millisecond)
+				}
+			}
+			bex.conn.Close()
+			v.label(true, "bulk-template-population")
+		}
 		// new templates (and redefinitions of known ones): announce, then data until published (= acknowledged)
 		toAnnounce := make([]*c15Key, 0, len(cy.NewKeys)+len(cy.Redefine))
 		for ki := range cy.NewKeys {
